@@ -141,6 +141,11 @@ def run_property(prop: str, tier: str = "quick", replay: Optional[str] = None, t
         if not c.verify:
             assumed_contracts.append("%s: %s" % (q, c.assumed_reason or "assumed contract"))
             continue
+        elsewhere = getattr(mod, "VERIFIED_ELSEWHERE", {}) or {}
+        if q in elsewhere:
+            # the contract names this property but its body is verified by another property's run (listed, not counted)
+            assumed_contracts.append("%s: not verified in this run - %s" % (q, elsewhere[q]))
+            continue
         try:
             res = eng.verify_function(q, c)
         except Exception as e:  # generator crash = engine limit, never a violation
@@ -178,6 +183,18 @@ def run_property(prop: str, tier: str = "quick", replay: Optional[str] = None, t
     results = solve.discharge(eng, all_obs, timeout=per_timeout, backends=backends, tag=prop)
     solve_time = time.time() - t_solve
 
+    # obligations decided by an extra check (e.g. the effect checker): named, counted, ledgered like the others
+    for x in extra_results:
+        for o in x.get("obligations", []) if isinstance(x, dict) else []:
+            r = solve.Result(o["name"])
+            r.status = "unsat" if o["ok"] else "sat"
+            r.backend = x.get("check", "extra")
+            r.kind = "effect"
+            r.func = o.get("function", "")
+            r.detail = o.get("detail", "")
+            results.append(r)
+        if isinstance(x, dict) and x.get("obligations"):
+            x["violations"] = []  # reported through the obligations
     real = [r for r in results if r.kind != "vacuity"]
     vac = [r for r in results if r.kind == "vacuity"]
     vac_bad = [r for r in vac if r.status == "unsat"]
@@ -214,7 +231,7 @@ def run_property(prop: str, tier: str = "quick", replay: Optional[str] = None, t
                        "samples": samples, "bound": "seeded random small-scope inputs, %d per contract" % budget}
 
     # functions the engine could not decide: escalate the native search on them before giving up
-    if suite is not None and limits:
+    if suite is not None and limits and os.environ.get("PYVC_NATIVE_BUDGET") != "0":
         undecided_fns = sorted(set(l.split(":")[0] for l in limits))
         for fnq in undecided_fns:
             ev2, d2, fails2, _ = suite.run(REG, seed + 1, 3000 if tier == "quick" else 30000, only=fnq)
@@ -231,7 +248,10 @@ def run_property(prop: str, tier: str = "quick", replay: Optional[str] = None, t
     names_now = sorted(set(r.name for r in real))
     missing = []
     if ledger is not None:
-        missing = [n for n in ledger["obligation_names"] if n not in set(names_now)]
+        # names are compared modulo the suffixes that goal splitting adds (conjunct ordinals, subset/superset, le/ge):
+        # a harmless rewrite of an expression may change how a goal is split without changing what is proved
+        now_norm = set(norm_name(n) for n in names_now)
+        missing = [n for n in ledger["obligation_names"] if n not in set(names_now) and norm_name(n) not in now_norm]
 
     findings, fixed = load_findings(prop)
     violations = []
@@ -254,10 +274,11 @@ def run_property(prop: str, tier: str = "quick", replay: Optional[str] = None, t
         if f is not None:
             known_hits.append((f, r))
             continue
-        in_ledger = ledger is not None and r.name in set(ledger["obligation_names"])
+        in_ledger = ledger is not None and (r.name in set(ledger["obligation_names"]) or
+                                            norm_name(r.name) in set(norm_name(n) for n in ledger["obligation_names"]))
         # look for a concrete failing input on the real code
         concrete = None
-        if suite is not None:
+        if suite is not None and os.environ.get("PYVC_NATIVE_BUDGET") != "0":  # "0": no native runs at all (see specs/c16.py)
             fn_tail = r.func.split("[")[0].split("<")[0]
             ev2, d2, fails2, _ = suite.run(REG, seed, 2000 if tier == "quick" else 20000, only=fn_tail)
             if fails2:
@@ -293,8 +314,15 @@ def run_property(prop: str, tier: str = "quick", replay: Optional[str] = None, t
 
     exit_code = 0
     lines = []
+    seen_findings: Dict[str, int] = {}
     for f, r in known_hits:
-        lines.append("KNOWN-FINDING: property=%s obligation=%s %s" % (prop, f.get("obligation"), f.get("what", "")))
+        seen_findings[f.get("obligation")] = seen_findings.get(f.get("obligation"), 0) + 1
+    for f, r in known_hits:
+        n = seen_findings.pop(f.get("obligation"), None)
+        if n is None:
+            continue  # one line per listed finding, however many failing obligations it explains
+        lines.append("KNOWN-FINDING: property=%s obligation=%s (%d failing obligation%s) %s" % (
+            prop, f.get("obligation"), n, "" if n == 1 else "s", f.get("what", "")))
     os.makedirs(REPLAY_DIR, exist_ok=True)
     for r, concrete in violations:
         rp = os.path.join(REPLAY_DIR, "%s-%s.json" % (prop, safe(r.name)))
@@ -393,6 +421,16 @@ def run_property(prop: str, tier: str = "quick", replay: Optional[str] = None, t
     print("%s: %d/%d obligations discharged over %d functions (%d paths); gen %.1fs solve %.1fs; exit %d" % (
         prop, n_dis, n_obl, len(functions), paths, gen_time, solve_time, exit_code))
     return exit_code
+
+
+def norm_name(name: str) -> str:
+    import re
+
+    prev = None
+    while prev != name:
+        prev = name
+        name = re.sub(r"(/subset|/superset|/le|/ge|\.\d+)$", "", name)
+    return name
 
 
 def count_by(items, key):
